@@ -124,7 +124,7 @@ Inductive aclass :=
 | AViewerReportFalse       (* report view calls an item excluded that is approved (the uploader sends it) *)
 | AViewerReportStackOmitted  (* report view does not mention an unapproved stack counter of a report (fixed: a1becfe) *)
 | AViewerChart             (* Charts section: "not present in the telemetry config" <> no configured counter belongs to the chart *)
-| AViewerChartStack.       (* ... for a chart of an approved STACK counter (finding 20: charts never consult the configured stacks) *)
+| AViewerChartStack.       (* ... for a chart of an approved STACK counter (charts not consulting the configured stacks; fixed: c8e437d) *)
 
 (* server side: report r (produced by the uploader iff from_uploader) got verdict v *)
 Definition server_check (u : upload_cfg) (from_uploader : bool) (week_ok semver_ok : bool) (r : report) (v : verdict)
@@ -272,14 +272,15 @@ Definition viewer_summary_check (u : upload_cfg) (f : cfile) (s : vsummary) : li
 
 (* grouped(): a counter "chart:bucket" belongs to the chart named by the text
    before its first colon (a counter without colon: by its name); a stack
-   counter to the chart named by its title.  charts(): a chart is flagged
-   "This counter is not present in the telemetry config" unless
-   HasCounter(program, chart) || HasCounterPrefix(program, chart). *)
+   counter to the chart named by its title.  charts() (after fix c8e437d): a
+   chart is flagged "This counter is not present in the telemetry config"
+   unless HasCounter(program, chart) || HasCounterPrefix(program, chart) ||
+   HasStack(program, chart). *)
 Definition chart_name (k : bytes) : bytes :=
   if is_stack k then stack_title k else before_byte k ch_colon.
 
 Definition viewer_chart_active (c : config) (prog name : bytes) : bool :=
-  has_counter c prog name || has_counter_prefix c prog name.
+  has_counter c prog name || has_counter_prefix c prog name || has_stack c prog name.
 
 Definition file_charts (f : cfile) : list (bytes * bytes) :=
   map (fun kv : bytes * N => (id_program (f_ident f), chart_name (fst kv))) (f_counts f).
